@@ -2,6 +2,7 @@
 #pragma once
 #include "../engine.h"
 #include "../catalog.h"
+#include "../getters.h"
 #include <algorithm>
 #include <map>
 
